@@ -21,7 +21,7 @@ from sim.worlda import WorldA
 
 PROP = "C10"
 LEVEL = "fault_enumeration"
-SCENARIOS = ["connect", "lossy-connect", "ping-missed", "rf-fault", "needs-attention", "steady-commands", "spa-not-found", "send-errors"]
+SCENARIOS = ["connect", "lossy-connect", "ping-missed", "rf-fault", "needs-attention", "steady-commands", "spa-not-found", "send-errors", "sync-commands"]
 # the library's own reset (a ping answered in an error state), with the client's handler suspending: no injection index needed
 AUTO_SCENARIOS = ["auto-reset-ping", "auto-reset-rf", "auto-reset-attention"]
 KINDS = ["reset", "setinfo", "exit"]
@@ -31,6 +31,7 @@ LATE_WINDOW = 300.0
 _N_CACHE: Dict[Any, int] = {}
 _SPANS_CACHE: Dict[Any, Any] = {}
 _EPK_CACHE: Dict[Any, Any] = {}
+_CMDK_CACHE: Dict[Any, Any] = {}
 
 
 def scenario_case(sseed: int, scen: str, k: Optional[int], kind: str) -> Dict[str, Any]:
@@ -42,6 +43,11 @@ def scenario_case(sseed: int, scen: str, k: Optional[int], kind: str) -> Dict[st
            "suspend_p": rng.choice([0.0, 0.0, 0.2]) if not scen.startswith("auto-") else rng.choice([0.0, 0.5, 1.0]),
            "suspend_max": 0.4, "lossp": rng.choice([0.1, 0.25]),
            "inject": {"k": k, "kind": kind}}
+    if scen == "sync-commands":
+        # the shipped protocol timeout and retry pause (4 s / 2 s) or close to them: an unanswered command stays in its attempt for seconds
+        for t in tables.values():
+            t["PROTOCOL_TIMEOUT_IN_SECONDS"] = rng.choice([2, 4])
+            t["PAUSE_BETWEEN_RETRIES_IN_SECONDS"] = rng.choice([1, 2])
     if sseed % 2 == 1:
         # tuning knob: the pause between handshake steps (shipped 0 = one turn of the loop): with a real pause the windows between the
         # steps of _connect() are many callbacks wide
@@ -63,6 +69,7 @@ def baseline_n(sseed: int, scen: str) -> int:
         _N_CACHE[key] = int(r.stats.get("body_callbacks", r.callbacks))
         _SPANS_CACHE[key] = (r.sample or {}).get("state_spans", [])
         _EPK_CACHE[key] = (r.sample or {}).get("endpoint_ks", [])
+        _CMDK_CACHE[key] = (r.sample or {}).get("command_ks", [])
     return _N_CACHE[key]
 
 
@@ -80,7 +87,11 @@ def gen_case(seed: int, tier: str, index: int) -> Dict[str, Any]:
     k = rng.randint(1, max(1, n))
     spans = state_spans(sseed, scen)
     epk = _EPK_CACHE.get((sseed, scen), [])
-    if epk and rng.random() < 0.15:
+    cmdk = _CMDK_CACHE.get((sseed, scen), [])
+    if cmdk and rng.random() < 0.5:
+        # while a command is in flight (from its first callback to a few dozen later: one round trip, or the retries of an unanswered one)
+        k = max(1, min(n, rng.choice(cmdk) + rng.choice([0, 1, 2, 3, 5, 8, 13, 21, 34, 55, 89])))
+    elif epk and rng.random() < 0.15:
         k = max(1, min(n, rng.choice(epk) + rng.choice([0, 1, 1, 2, 3, 5])))
     elif spans and rng.random() < 0.4:
         # stratified by manager state: pick a state the baseline visited, then an index inside one of its spans, so that the short-lived
@@ -88,7 +99,7 @@ def gen_case(seed: int, tier: str, index: int) -> Dict[str, Any]:
         st = rng.choice(sorted({sp[0] for sp in spans}))
         lo, hi = rng.choice([(a, b) for (s0, a, b) in spans if s0 == st])
         k = max(1, min(n, rng.randint(lo, max(lo, hi))))
-    kind = KINDS[(index // 3) % 3] if rng.random() < 0.8 else rng.choice(KINDS)
+    kind = KINDS[(index // len(SCENARIOS)) % 3] if rng.random() < 0.8 else rng.choice(KINDS)     # (independent of scenario and scenario seed)
     return scenario_case(sseed, scen, k, kind)
 
 
@@ -161,7 +172,7 @@ async def scenario(world: WorldA) -> None:
         if scen.startswith("auto-reset") and state.get("auto") is None and d["event"].name == "RUNNING_SPA_DISCONNECTED" \
                 and not d["task"].startswith("HARNESS"):
             a: Dict[str, Any] = {"t": world.now(), "state": d["state"].name, "transports": list(world.loop.transports), "gen": watcher.gen,
-                                 "tasks": {task: task.get_name() for task in library_tasks() if task.get_name().split(":")[0] in ("SPA", "FACADE", "LOC")},
+                                 "tasks": {task: task.get_name() for task in library_tasks() if task.get_name().split(":")[0] not in ("SPAMAN", "ASYNC")},
                                  "by": d["task"], "d": d}
             state["auto"] = a
             res.probe("library_reset_observed")
@@ -239,6 +250,27 @@ async def scenario(world: WorldA) -> None:
                 cmds.append(asyncio.create_task(_cmd(spa, i), name=f"HARNESS:cmd-{i}"))
                 await asyncio.sleep(0.35)
             await asyncio.sleep(2.0)
+        elif scen == "sync-commands":
+            # the synchronous twins of the command API (spa.press, structure.set_value: what `accessor.value = x` and the facade's
+            # non-awaitable methods use): the library creates the command's task itself, so that task belongs to the connection; with an
+            # odd scenario seed the spa does not acknowledge pack commands and they stay in flight (retrying) for a long time
+            if world.case["seed"] % 2 == 1:
+                model.silent_verbs.add("GeckoPackCommandProtocolHandler")
+            for i in range(5):
+                if man.facade is None:
+                    break
+                spa = man.facade.spa
+                cmd_cbs.append(world.loop.callbacks)
+                try:
+                    if i % 2 == 0:
+                        spa.press(21)
+                    else:
+                        spa.struct.set_value(700 + i, 1, i)
+                    res.probe("command_through_the_synchronous_api")
+                except Exception:
+                    res.probe("cmd_raised")
+                await asyncio.sleep(0.35)
+            await asyncio.sleep(2.0)
         elif scen == "cycles":
             await cycles_body()
         elif scen.startswith("auto-reset"):
@@ -265,7 +297,10 @@ async def scenario(world: WorldA) -> None:
                     res.probe("library_reset_with_suspended_handler")
                 await check_after_reset(world, sysm, man, watcher, state["auto"], {"reset_done": state["auto"]["t"]}, {"kind": "library-reset", "k": None}, model)
 
+    cmd_cbs: List[int] = []
+
     async def _cmd(spa, i: int) -> None:
+        cmd_cbs.append(world.loop.callbacks)
         try:
             if i % 3 == 0:
                 await spa.async_press(21)
@@ -306,7 +341,7 @@ async def scenario(world: WorldA) -> None:
         snap["t"] = world.now()
         snap["state"] = man.spa_state.name
         snap["transports"] = list(world.loop.transports)
-        snap["tasks"] = {task: task.get_name() for task in library_tasks() if task.get_name().split(":")[0] in ("SPA", "FACADE", "LOC")}
+        snap["tasks"] = {task: task.get_name() for task in library_tasks() if task.get_name().split(":")[0] not in ("SPAMAN", "ASYNC")}
         cur = sysm.spa
         snap["spa_without_protocol"] = cur is not None and getattr(cur, "_protocol", None) is None and snap["state"] == "CONNECTING"
         snap["gen"] = watcher.gen
@@ -332,6 +367,15 @@ async def scenario(world: WorldA) -> None:
         except Exception as e:
             state["reset_done"] = world.now()
             state["reset_raised"] = repr(e)
+        # "promptly" is judged GRACE after the reset returned, whatever the scenario's body is doing at that time (a task that outlives
+        # the reset by a few seconds and then ends by itself must not escape because the body happened to run longer)
+        t_ret = state["reset_done"]
+        await asyncio.sleep(GRACE)
+        stall = world.clock.stall_between(t_ret, world.now())
+        if stall > 0:
+            await asyncio.sleep(stall)
+        state["alive_at_grace"] = sorted(name for task, name in snap["tasks"].items() if not task.done())
+        state["leaked_at_grace"] = [t for t in snap["transports"] if not t.close_called]
 
     def hook(cb: int) -> None:
         if state["injected"] is None and cb >= start_cb["n"] + inj["k"]:
@@ -463,6 +507,8 @@ async def scenario(world: WorldA) -> None:
         # ... and the injection indices right after an endpoint was opened (discovery, connection): the few callbacks in which the
         # endpoint exists but the tasks that will use it do not
         res.sample["endpoint_ks"] = [c - start_cb["n"] for c in ep_cbs if c >= start_cb["n"]][:40]
+        # ... and those at which a command was issued (a command in flight is the connection's shortest-lived piece of work)
+        res.sample["command_ks"] = [c - start_cb["n"] for c in cmd_cbs if c >= start_cb["n"]][:40]
 
 
 def _is_locator(tr, sysm: System) -> bool:
@@ -519,17 +565,43 @@ async def check_after_reset(world: WorldA, sysm: System, man, watcher: Watcher, 
     if stall > 0:
         await asyncio.sleep(stall)
     leaked = [t for t in snap["transports"] if not t.close_called]
+    if not leaked and state.get("leaked_at_grace"):
+        leaked = state["leaked_at_grace"]
+        res.probe("judged_at_grace_after_reset")
+    alive = sorted(name for task, name in snap["tasks"].items() if not task.done())
+    if not alive and state.get("alive_at_grace"):
+        alive = state["alive_at_grace"]
+        res.probe("judged_at_grace_after_reset")
+    # history signature: a discovery was in progress when the reset was made (its endpoint and its two helper tasks are what is left) --
+    # does it at least end at its own timeout?  (left for good is a different matter from left until the discovery times out)
+    own_timeout = False
+    if inj["kind"] in ("reset", "setinfo") and (leaked or alive) and all(_is_locator(t, sysm) for t in leaked) \
+            and all(a.startswith("LOC:") for a in alive):
+        from sim.system import table_max
+
+        until = t_ret + table_max(world.cfg["tables"], "DISCOVERY_TIMEOUT_IN_SECONDS") + GRACE
+        if until > world.now():
+            await asyncio.sleep(until - world.now())
+        stall = world.clock.stall_between(t_ret, world.now())
+        if stall > 0:
+            await asyncio.sleep(stall)
+        own_timeout = not any(not t.close_called for t in leaked) and \
+            not any(not task.done() for task, name in snap["tasks"].items() if name.startswith("LOC:"))
+        res.probe("discovery_in_progress_at_reset")
     if leaked:
         who = sorted({"locator" if _is_locator(t, sysm) else "spa" for t in leaked})
         sig = "endpoint-leak:" + "+".join(who)
+        if own_timeout:
+            sig = "endpoint-leak:locator:discovery-in-progress-at-reset-runs-on-until-its-own-timeout"
         if snap.get("spa_without_protocol") and who == ["spa"]:
             # history signature: the reset landed while _connect() was still waiting for its endpoint, before the spa had a protocol to drop
             sig = "endpoint-leak:spa:reset-while-connect-awaits-its-endpoint"
         world.note(PROP, "endpoint-leak", f"{len(leaked)} endpoint(s) of the abandoned connection not closed {GRACE}s after the "
                       f"{inj['kind']} returned: {[t.label for t in leaked]} ({ctx})", sig=sig)
-    alive = sorted(name for task, name in snap["tasks"].items() if not task.done())
     if alive:
         sig = "task-left-after-reset:" + "+".join(sorted({a.split(":")[0] + ":" + a.split(":")[1] for a in alive}))
+        if own_timeout:
+            sig = "task-left-after-reset:LOC:discovery-in-progress-at-reset-runs-on-until-its-own-timeout"
         world.note(PROP, "task-left-after-reset", f"tasks of the abandoned connection still alive {GRACE}s after the {inj['kind']} "
                       f"returned: {alive} ({ctx})", sig=sig)
     # tasks started *after* the reset on behalf of the abandoned connection: a consumer task that polls the receive queue of a protocol
@@ -601,7 +673,7 @@ ASSUMPTIONS = [
     "a callback boundary is an await point of some task; sweeping the callback index therefore sweeps the reachable await points of the scenario",
     "observers are the harness's own recording callbacks registered through the public watch() API",
 ]
-PROBES = ["library_reset_observed", "library_reset_with_suspended_handler", "inject_in_LOCATING_SPAS", "inject_in_CONNECTING", "inject_in_CONNECTED", "inject_in_ERROR_PING_MISSED", "inject_in_ERROR_RF_FAULT",
+PROBES = ["command_through_the_synchronous_api", "library_reset_observed", "library_reset_with_suspended_handler", "inject_in_LOCATING_SPAS", "inject_in_CONNECTING", "inject_in_CONNECTED", "inject_in_ERROR_PING_MISSED", "inject_in_ERROR_RF_FAULT",
           "inject_in_ERROR_NEEDS_ATTENTION", "inject_in_ERROR_SPA_NOT_FOUND", "inject_in_LOCATED_SPAS", "inject_in_SPA_READY"]
 EXHAUSTIVE = {"quick": False, "thorough": False}
 N_QUICK = 1680
